@@ -373,3 +373,250 @@ func purePrio(r *rng.R) int {
 	}
 	return r.Intn(5) - 2
 }
+
+// ---------------------------------------------------------------------------------------------------------
+// hookconc: C07's concurrent variant. Several clients mutate through the observable repository; the `GetNext`
+// that a re-arm makes can be parked (AFTER the core repository answered) for a chosen call, so that other clients'
+// whole mutations land between a re-arm's look-up and its Reset — exactly the window that exists if the hook
+// timer does not hold its lock across the look-up. On code that does hold it the other clients simply block until
+// the parked call is resumed. At quiescence (everything resumed and returned) the property is evaluated on the
+// implementation's own observables: timer started, no update error, a scheduled task exists ⇒ a wake-up is pending
+// or armed at or before the head's scheduled time.
+
+type hcGate struct {
+	parkNext bool
+	parked   chan struct{}
+	release  chan struct{}
+}
+
+type hcKey struct{}
+
+type gateRepo struct{ def.Repository }
+
+func (g *gateRepo) GetNext(ctx context.Context) (def.Task, error) {
+	t, err := g.Repository.GetNext(ctx)
+	if gate, _ := ctx.Value(hcKey{}).(*hcGate); gate != nil && gate.parkNext {
+		gate.parkNext = false
+		gate.parked <- struct{}{}
+		<-gate.release
+	}
+	return t, err
+}
+
+type hcClient struct {
+	gate  *hcGate
+	done  chan struct{}
+	state string // idle | parked | running (blocked somewhere) | done
+}
+
+func hookConcExec(h sim.History) []string {
+	out := []string{"new mem"}
+	clk := vclock.New(T0)
+	mem := inmemory.NewInMemoryRepository()
+	mem.VerifSetClock(clk)
+	next := ""
+	mem.VerifSetRandStrGen(func() string { return next })
+	timer := repository.NewMutationHookTimer()
+	timer.VerifSetClock(clk)
+	obs := repository.New(&gateRepo{Repository: mem}, timer)
+	n := 3
+	cl := make([]*hcClient, n)
+	for i := range cl {
+		cl[i] = &hcClient{gate: &hcGate{parked: make(chan struct{}), release: make(chan struct{})}, state: "idle"}
+	}
+	wait := func(c *hcClient, d time.Duration) {
+		select {
+		case <-c.gate.parked:
+			c.state = "parked"
+		case <-c.done:
+			c.state = "idle"
+		case <-time.After(d):
+			c.state = "running" // blocked behind a parked call (or slow): picked up later
+		}
+	}
+	settle := func(d time.Duration) { // pick up calls that were blocked and have moved on
+		for _, c := range cl {
+			if c.state == "running" {
+				wait(c, d)
+			}
+		}
+	}
+	for _, line := range h.Ops {
+		tok := strings.Fields(line)
+		if len(tok) < 2 {
+			continue
+		}
+		ci, err := strconv.Atoi(tok[1])
+		if err != nil || ci < 0 || ci >= n {
+			continue
+		}
+		c := cl[ci]
+		switch tok[0] {
+		case "adv":
+			// (the client index is ignored) move virtual time; a fire is consumed like the scheduler would
+			if t, err := proto.UnTime(tok[2]); err == nil {
+				clk.Set(t)
+			}
+		case "resume":
+			if c.state == "parked" {
+				c.gate.release <- struct{}{}
+				c.state = "running"
+				wait(c, 25*time.Millisecond)
+				settle(5 * time.Millisecond)
+			}
+		case "call":
+			if c.state != "idle" || len(tok) < 4 {
+				continue
+			}
+			park := tok[2] == "park"
+			c.gate.parkNext = park
+			c.done = make(chan struct{})
+			ctx := context.WithValue(context.Background(), hcKey{}, c.gate)
+			op := tok[3:]
+			var run func()
+			switch op[0] {
+			case "start":
+				run = func() { obs.StartTimer(ctx) }
+			case "add":
+				id, _ := proto.UnStr(op[1])
+				p, err := proto.UnParam(op[2:])
+				if err != nil {
+					continue
+				}
+				next = id
+				run = func() { obs.AddTask(ctx, p) }
+			case "upd":
+				id, _ := proto.UnStr(op[1])
+				p, err := proto.UnParam(op[2:])
+				if err != nil {
+					continue
+				}
+				run = func() { obs.UpdateById(ctx, id, p) }
+			case "can":
+				id, _ := proto.UnStr(op[1])
+				run = func() { obs.Cancel(ctx, id) }
+			case "dis":
+				id, _ := proto.UnStr(op[1])
+				run = func() { obs.MarkAsDispatched(ctx, id) }
+			default:
+				continue
+			}
+			c.state = "running"
+			done := c.done
+			go func() { run(); close(done) }()
+			wait(c, 25*time.Millisecond)
+		}
+	}
+	// quiescence: resume everything that is parked, wait for every call
+	for round := 0; round < 6; round++ {
+		busy := false
+		for _, c := range cl {
+			switch c.state {
+			case "parked":
+				c.gate.release <- struct{}{}
+				c.state = "running"
+				wait(c, 200*time.Millisecond)
+				busy = true
+			case "running":
+				wait(c, 200*time.Millisecond)
+				busy = true
+			}
+		}
+		if !busy {
+			break
+		}
+	}
+	for _, c := range cl {
+		if c.state != "idle" {
+			out = append(out, "mismatch C07 a call through the observable repository never returned (state "+c.state+")")
+			return append(out, "end")
+		}
+	}
+	_, _, started := timer.VerifState()
+	if started && obs.LastTimerUpdateError() == nil {
+		if head, err := mem.GetNext(context.Background()); err == nil {
+			armed, dl, pending := clk.State()
+			if !(pending || (armed && !dl.After(head.ScheduledAt))) {
+				a := "-"
+				if armed {
+					a = proto.Time(dl)
+				}
+				out = append(out, fmt.Sprintf("mismatch C07 at quiescence after concurrent mutations the head %s is scheduled at %s but the timer is armed=%s pending=%v",
+					proto.Str(head.Id), proto.Time(head.ScheduledAt), a, pending))
+			}
+		}
+	}
+	return append(out, "end")
+}
+
+func hookConcGen(r *rng.R, length int) sim.History {
+	h := sim.History{Header: "new hookconc"}
+	h.Ops = append(h.Ops, "call 0 - start")
+	nid := 0
+	when := func() time.Time { return T0.Add(time.Duration(10*(1+r.Intn(4))) * time.Second) }
+	for len(h.Ops) < length {
+		c := r.Intn(3)
+		park := "-"
+		if r.Chance(1, 3) {
+			park = "park"
+		}
+		switch k := r.Intn(10); {
+		case k < 4:
+			nid++
+			p := def.TaskUpdateParam{WorkId: option.Some("w"), ScheduledAt: option.Some(when())}
+			h.Ops = append(h.Ops, fmt.Sprintf("call %d %s add t%d %s", c, park, nid, proto.Param(p)))
+		case k < 6 && nid > 0:
+			p := def.TaskUpdateParam{ScheduledAt: option.Some(when())}
+			h.Ops = append(h.Ops, fmt.Sprintf("call %d %s upd t%d %s", c, park, 1+r.Intn(nid), proto.Param(p)))
+		case k < 7 && nid > 0:
+			h.Ops = append(h.Ops, fmt.Sprintf("call %d %s can t%d", c, park, 1+r.Intn(nid)))
+		case k < 8 && nid > 0:
+			h.Ops = append(h.Ops, fmt.Sprintf("call %d %s dis t%d", c, park, 1+r.Intn(nid)))
+		default:
+			h.Ops = append(h.Ops, fmt.Sprintf("resume %d", r.Intn(3)))
+		}
+	}
+	return h
+}
+
+func cmdHookConc(args []string) {
+	var c common
+	fs := flag.NewFlagSet("hookconc", flag.ExitOnError)
+	c.register(fs)
+	fs.Parse(args)
+	os.MkdirAll(c.scratch, 0o755)
+	rep := &Report{Family: "hookconc", Seed: c.seed, Dist: map[string]int{}, Config: map[string]string{}}
+	var hists []sim.History
+	if c.replay != "" {
+		h, err := loadReplay(c.replay)
+		if err != nil {
+			fmt.Fprintln(os.Stderr, "gkh:", err)
+			os.Exit(2)
+		}
+		hists = []sim.History{h}
+	} else {
+		root := rng.New(c.seed)
+		for i := 0; i < c.n; i++ {
+			hists = append(hists, hookConcGen(root.Fork(), c.length))
+		}
+	}
+	traces := make([][]string, len(hists))
+	parallelDo(&c, len(hists), func(i int) { traces[i] = hookConcExec(hists[i]) })
+	for _, h := range hists {
+		rep.Ops += len(h.Ops)
+		for _, l := range h.Ops {
+			if strings.Contains(l, " park ") {
+				rep.Dist["parked_calls"]++
+			}
+		}
+	}
+	rep.Histories = len(hists)
+	rep.Distinct = distinctCount(hists)
+	for i := 0; i < len(hists) && i < 1; i++ {
+		rep.Samples = append(rep.Samples, hists[i])
+	}
+	// the quiescence monitor is evaluated by the harness itself; the repo driver only relays `mismatch` lines
+	analyse(&c, "repo", hists, traces, hookConcExec, rep)
+	rep.Family = "hookconc"
+	writeReport(&c, rep)
+}
